@@ -459,6 +459,42 @@ def api_ws_api__names : List String := [
   "PcApi.handleLog",
   "handleIncoming"]
 
+/-- src/app/daemon.go:Process.isDaemonLaunched -/
+def app_daemon__Process_isDaemonLaunched : List String := [
+  "func (p *Process) isDaemonLaunched() bool {",
+  "return p.procConf.IsDaemon && p.procState.ExitCode == 0",
+  "}"]
+
+/-- src/app/daemon.go:Process.notifyDaemonStopped -/
+def app_daemon__Process_notifyDaemonStopped : List String := [
+  "func (p *Process) notifyDaemonStopped() {",
+  "if p.procConf.IsDaemon {",
+  "p.procStateChan <- types.ProcessStateCompleted",
+  "}",
+  "}"]
+
+/-- src/app/daemon.go:Process.waitForDaemonCompletion -/
+def app_daemon__Process_waitForDaemonCompletion : List String := [
+  "func (p *Process) waitForDaemonCompletion() {",
+  "if !p.isDaemonLaunched() {",
+  "return",
+  "}",
+  "loop:",
+  "for {",
+  "status := <-p.procStateChan",
+  "switch status {",
+  "case types.ProcessStateCompleted:",
+  "break loop",
+  "}",
+  "}",
+  "}"]
+
+/-- src/app/daemon.go: its functions -/
+def app_daemon__names : List String := [
+  "Process.waitForDaemonCompletion",
+  "Process.notifyDaemonStopped",
+  "Process.isDaemonLaunched"]
+
 /-- src/app/process.go:Process.doConfiguredStop -/
 def app_process__Process_doConfiguredStop : List String := [
   "func (p *Process) doConfiguredStop(params types.ShutDownParams) error {",
